@@ -138,6 +138,12 @@ func init() {
 			in.schedPoint()
 			return nil
 		},
+		// vpEager marks the calling thread as a partner goroutine that is run
+		// as soon as it is runnable (no scheduling choice is spent on it)
+		"vpEager": func(in *Interp, _ *frame, _ token.Pos, args []Value) Value {
+			in.cur.eager = true
+			return nil
+		},
 		// vpSettle: background work drains — every other thread runs until it
 		// is blocked or done before the caller continues
 		"vpSettle": func(in *Interp, _ *frame, pos token.Pos, args []Value) Value {
